@@ -25,7 +25,11 @@ Inductive op10 :=
   (* the same two creations through the other public constructor routes (both build flavours):
      f = 0 no file, 1 a backing file mapped from offset 0, 2 a backing file mapped from offset 65536 *)
   | ONewVia (f base size : N)         (* GuestRegionMmap::from_range(base, size, file f): 1 region slot *)
-  | OFromRangesF (l : list (N * N * N)). (* from_ranges_with_files([(start, len, file f)]): |l| region slots, 1 map slot *)
+  | OFromRangesF (l : list (N * N * N))  (* from_ranges_with_files([(start, len, file f)]): |l| region slots, 1 map slot *)
+  (* objects going away: "the map it was derived from, and every snapshot or region handle obtained earlier, keeps
+     describing and reaching the same memory" must hold when a LATER (or earlier) object is destroyed *)
+  | ODropMap (m : N)                  (* drop(maps[m]): the slot is empty afterwards *)
+  | ODropRemoved (k : N).             (* drop the k-th handle returned by remove_region (no-op if absent / gone) *)
 Record case10 := { c_mode : mode; c_ops : list op10 }.
 
 (* observation of one operation:
@@ -112,6 +116,14 @@ Definition ok_ranges (st : st10) (l : list (N * N)) (o : obs10) : option st10 :=
   else None.
 Definition strip_files (l : list (N * N * N)) : list (N * N) := map fst l.
 
+(* slot i emptied, every other slot as before *)
+Fixpoint forget {T} (l : list (option T)) (i : nat) {struct l} : list (option T) :=
+  match l, i with
+  | [], _ => []
+  | _ :: t, O => None :: t
+  | x :: t, S k => x :: forget t k
+  end.
+
 (* one step: None = the observation is rejected; Some st' = accepted, continue with st' *)
 Definition ok_step (st : st10) (op : op10) (o : obs10) : option st10 :=
   if negb (o_intact o) then None else
@@ -182,6 +194,16 @@ Definition ok_step (st : st10) (op : op10) (o : obs10) : option st10 :=
   (* the property does not distinguish constructor routes: same judgement as ONew / OFromRanges *)
   | ONewVia _ base size => ok_new st base size o
   | OFromRangesF l => ok_ranges st (strip_files l) o
+  (* destroying an object produces nothing and - this is the `intact` verdict looked at above - leaves every
+     surviving map / handle describing and reaching the same memory; the destroyed map is not an operand any more *)
+  | ODropMap m =>
+      match get ms m, o_regs o with
+      | Some _, [] => if o_code o =? 0 then Some {| pool := p; maps := forget ms (N.to_nat m) |} else None
+      | None, [] => if o_code o =? 8 then Some st else None
+      | _, _ => None
+      end
+  | ODropRemoved _ =>
+      match o_regs o with [] => if o_code o =? 0 then Some st else None | _ => None end
   end.
 
 Fixpoint ok_steps (st : st10) (ops : list op10) (obs : list obs10) {struct ops} : bool :=
